@@ -28,7 +28,10 @@ PROFILES = "abc"
 
 
 def gene_bases(gene: Sequence[int], length: int) -> FrozenSet[int]:
-    """ the set of bases of a gene [s, e, strand]; e > length wraps """
+    """ the set of bases of a gene [s, e, strand] or [s, e, strand, exons]; coordinates beyond length wrap.
+        exons: ascending [start, end) pairs between s and e (the introns are not bases of the gene) """
+    if len(gene) > 3:
+        return frozenset(x % length for low, high in gene[3] for x in range(low, high))
     start, end = gene[0], gene[1]
     return frozenset(x % length for x in range(start, end))
 
@@ -206,8 +209,24 @@ def build_record(case: Dict[str, Any]):
     record = Record(Seq("A" * length))
     record.id = "rec"
     record.annotations["topology"] = "circular" if case["circ"] else "linear"
-    for i, (start, end, strand) in enumerate(case["genes"]):
-        if end > length:
+    for i, gene in enumerate(case["genes"]):
+        start, end, strand = gene[0], gene[1], gene[2]
+        if len(gene) > 3:
+            # a multi-exon gene: every exon (cut in two where it crosses the origin) in ascending order of
+            # the unrotated coordinates, then in biological order (descending for the reverse strand)
+            pieces = []
+            for low, high in gene[3]:
+                low, high = low % length + 0, low % length + (high - low)
+                if high <= length:
+                    pieces.append([FeatureLocation(low, high, strand)])
+                else:
+                    assert case["circ"], "origin-spanning exon on a linear record"
+                    pieces.append([FeatureLocation(low, length, strand), FeatureLocation(0, high - length, strand)])
+            if strand == -1:
+                pieces = [list(reversed(piece)) for piece in reversed(pieces)]
+            parts = [part for piece in pieces for part in piece]
+            location = parts[0] if len(parts) == 1 else CompoundLocation(parts)
+        elif end > length:
             assert case["circ"], "origin-spanning gene on a linear record"
             high = FeatureLocation(start, length, strand)
             low = FeatureLocation(0, end - length, strand)
